@@ -275,6 +275,26 @@ def run_history(ctx, ops, mats, fresh, seq, label, ws=None, last_interleaved_wit
             real.build(rp2, inp2, binary=binary2, ret=ret2, search=search2, only_addr=oa2, macros=mf2)
             rr = real.run(b)
             r = ["ok", rr[1]] if rr[0] == "ok" else ["exc", rr[1]]
+            # the compile API the same way: rule object made, the next rule's object made, then the first one compiled
+            at_once = real.compile_rule(rp, mf)
+            if at_once[0] == "ok":
+                try:
+                    y1 = real.y2r.Yaml2Regex(rp, macros_from_terminal=mf)
+                    try:
+                        real.y2r.Yaml2Regex(rp2, macros_from_terminal=mf2)
+                    except Exception:  # noqa: BLE001
+                        pass
+                    later = ("ok", y1.produce_regex())
+                except Exception as e:  # noqa: BLE001
+                    later = ("exc", type(e).__name__)
+                ctx.ran(2)
+                ctx.event("rules_compiled_after_the_next_rule_was_loaded")
+                if later != ("ok", at_once[1]):
+                    ctx.disagreement({"history": [ops[j]["name"] for j in seq[:pos + 1]], "op": ops[i], "fresh": None, "in_history": list(later)[:1],
+                                      "random_ops": [o for o in ops if o["name"].startswith("rand-")], "interleaved_with": ops[nxt]["name"], "compile_only": True},
+                                     f"rule {ops[i]['name']}: its Yaml2Regex object was made, then {ops[nxt]['name']} was loaded, then produce_regex() gave "
+                                     f"{str(later[1])[:160]!r}; compiled at once it gives {at_once[1][:160]!r}")
+                    return False
         elif ws is not None and ctx.rng.random() < 0.4:
             ctx.event("ops_through_shared_paths")
             r = run_op(shared_paths(ws, ops[i], mats[i]))
